@@ -285,7 +285,7 @@ def n1_strip(text):
             if toks[j].text == '[':
                 close = match_close(toks, j)
                 inner = text[toks[j].end:toks[close].start].strip()
-                if re.match(r'(inline|must_use|allow|derive|doc|cold|track_caller)\b', inner):
+                if re.match(r'(inline|must_use|allow|derive|doc|cold|track_caller|non_exhaustive|deprecated)\b', inner):
                     edits.append((t.start, toks[close].end, ''))
                     recs.append(dict(rule='N1', before=text[t.start:toks[close].end], after=''))
                 k = close
@@ -647,3 +647,63 @@ def insert_hints(text, hints):
             pos = toks[s[0]].start if where == 'before' else toks[s[1]].end
         text = text[:pos] + '\n' + ghost + '\n' + text[pos:]
     return text, lost
+
+
+def n14_hoist(text):
+    """N14: item statements nested in a function body (`struct X..;`, `impl .. {..}`) are moved to module
+    level (Verus does not support internal item statements); a hoisted `Drop::drop` gets the mode
+    annotation Verus demands (`opens_invariants none no_unwind`). Returns (text, hoisted_text, records)."""
+    hoisted, recs = [], []
+    while True:
+        ft = FnText(text)
+        if ft.body_open is None:
+            break
+        found = None
+
+        def scan(lo, hi):
+            for s in split_stmts(ft, lo, hi):
+                first = ft.toks[s[0]]
+                if first.kind == 'ident' and first.text in ('struct', 'impl') and lo != -1:
+                    return s
+                k = s[0]
+                while k <= s[1]:
+                    t = ft.toks[k]
+                    if t.kind == 'punct' and t.text == '{':
+                        close = match_close(ft.toks, k)
+                        r = scan(k, close)
+                        if r is not None:
+                            return r
+                        k = close + 1
+                    else:
+                        k += 1
+            return None
+        found = scan(ft.body_open, ft.body_close)
+        if found is None:
+            break
+        # an item ends at the `}` of its first top-level brace block, or at `;` if none comes first
+        k = found[0]
+        endk = found[1]
+        depth = 0
+        while k <= found[1]:
+            t = ft.toks[k]
+            if t.kind == 'punct':
+                if t.text in '([':
+                    depth += 1
+                elif t.text in ')]':
+                    depth -= 1
+                elif t.text == '{' and depth == 0:
+                    endk = match_close(ft.toks, k)
+                    break
+                elif t.text == ';' and depth == 0:
+                    endk = k
+                    break
+            k += 1
+        a, b = ft.toks[found[0]].start, ft.toks[endk].end
+        item = text[a:b]
+        if re.match(r'impl\b[^{]*\bDrop\s+for\b', item):
+            # a Drop guard's body only runs during unwinding, which this family does not model: keep it as external text
+            item = '#[verifier::external]\n' + item
+        hoisted.append(item)
+        recs.append(dict(rule='N14', before='nested item: ' + squash(item)[:60], after='hoisted to module level'))
+        text = text[:a] + text[b:]
+    return text, '\n'.join(hoisted), recs
